@@ -190,6 +190,24 @@ static void run_block(Rig &R, Acc &acc, int model, int alg, int tl, int smod, bo
             if(b < 64 && t != std::array<int, 4>{{kTLsets[tl][0], kTLsets[tl][1], kTLsets[tl][2], kTLsets[tl][3]}}) acc.nontrivial++;
         }
     }
+    // (E) instruments with a velocity offset (only settable through the instrument API): the velocity axis stays monotone and in range
+    for(int voff : {-100, -20, 20, 100}) {
+        Cfg c{model, alg, tl, smod, 0, 127, 127};
+        R.configure(c);
+        { OPN2_Instrument in = make_ins(0, 0, 0, 0, 1000, 10, (uint8_t)alg); for(int k = 0; k < 4; k++) in.operators[k].level_40 = (uint8_t)kTLsets[tl][k]; in.operators[0].decay2_70 = 0; in.operators[1].decay2_70 = 0; in.midi_velocity_offset = (OPN2_SInt8)voff;
+          VCHECK(opn2_setInstrument(R.I.dev, &R.bank, 0, &in) == 0, "setInstrument failed"); }
+        std::array<int, 4> prev = {{127, 127, 127, 127}};
+        for(int vel = 1; vel < 128; vel++) {
+            cur = show(c, vel, 100, 127) + fmt(" velocity_offset=%d", voff);
+            opn2_rt_controllerChange(R.I.dev, 0, 7, 100); opn2_rt_controllerChange(R.I.dev, 0, 11, 127);
+            R.clear_log();
+            VCHECK(opn2_rt_noteOn(R.I.dev, 0, 60, (OPN2_UInt8)vel) == 1, "note-on rejected");
+            std::array<int, 4> t = R.last_tl(0);
+            opn2_rt_noteOff(R.I.dev, 0, 60);
+            for(int k = 0; k < 4; k++) if(is_carrier(alg, k) || smod) VCHECK(t[(size_t)k] <= prev[(size_t)k], "reg 0x%02X: TL rises %d -> %d when velocity goes %d -> %d (%s)", 0x40 + 4 * k, prev[(size_t)k], t[(size_t)k], vel - 1, vel, cur.c_str());
+            prev = t; acc.points++; if(t[3] != 127) acc.nontrivial++;
+        }
+    }
     // (D) brightness moved on a HELD note, down and up again: the levels follow the controller in both directions, and once no
     //     reduced brightness is in force any more the modulators are back at the instrument's own levels
     for(int fr = 0; fr < 2; fr++) {
